@@ -45,7 +45,7 @@ deriving Repr, DecidableEq
 /-- what `getReg` finds for a 64-byte window, as far as `tryFindReg` looks at it -/
 inductive RegView
   | otherTransport                    -- `reg.TransportType() != Prefix`
-  | noPrefixParams                    -- params are not `*PrefixTransportParams` (absent or another type): not checked
+  | noPrefixParams                    -- params are not `*PrefixTransportParams` (absent or another type)
   | nilPrefixParams                   -- typed nil
   | prefixParams (id : Int)
 deriving Repr, DecidableEq
@@ -76,7 +76,7 @@ def tryPrefix (data : Bytes) (getReg : Bytes → Option RegView) (p : PrefixSpec
     | some (.prefixParams id) =>
       if id ≠ p.id then cont tryAgain true
       else .ok (some (.found (p.offset + prefixTagLength)), tryAgain, eWrong)
-    | some .noPrefixParams => .ok (some (.found (p.offset + prefixTagLength)), tryAgain, eWrong)
+    | some .noPrefixParams => cont tryAgain true     -- absent or foreign parameters: treated like a mismatch
 
 def tryFindRegLoop (data : Bytes) (getReg : Bytes → Option RegView) :
     List PrefixSpec → Bool → Bool → Outcome Verdict
